@@ -28,7 +28,11 @@ Step(ev) ==
     [] ev.a = "part" ->
          /\ NextPart(ev.arg.n, ev.obs)
          /\ PartOK(parts'[Len(parts')])
-    [] ev.a = "join" ->
+    [] ev.a = "join" /\ Len(parts) < 2 ->      \* nothing to join: the driver made no call
+         /\ ev.obs.ret = "none"
+         /\ UNCHANGED <<data, lo, hi, ranged, pos, parts>>
+         /\ obs' = [a |-> "join", arg |-> [x |-> 0], exp |-> [ret |-> "none"]]
+    [] ev.a = "join" /\ Len(parts) >= 2 ->
          /\ Len(parts) >= 2
          /\ LET to == parts[Len(parts) - 1]  post == parts[Len(parts)]
                 j  == [s |-> to.s, n |-> to.raw + post.n, raw |-> ev.obs.to.raw, usr |-> ev.obs.to.usr,
@@ -48,6 +52,18 @@ Step(ev) ==
          /\ Apply(ev.arg.mode, ps)
          /\ pos' = Len(data)
          /\ \A i \in 1..Len(ps) : PartOK(ps[i])
+    [] ev.a = "poly" ->
+         LET ps == Build(ev.obs.parts, 1, 0) IN
+         /\ StartsInside(ps)
+         /\ Poly(ev.obs.ret, ps, ev.obs.pts, ev.obs.ends)
+         /\ pos' = Len(data)
+         /\ \A i \in 1..Len(ps) : PartOK(ps[i])
+         /\ ev.obs.full = 1 =>
+              /\ Len(ev.obs.pts) = Len(ev.obs.ends) /\ Len(ev.obs.pts) <= Len(ps)
+              /\ \A i \in 1..Len(ps) : ps[i].usr > 0 => i <= Len(ev.obs.pts)
+              /\ \A i \in 1..Len(ev.obs.pts) :
+                   /\ ev.obs.pts[i] = DrawnVals(ps[i])
+                   /\ EndsOK(ps[i], ev.obs.ends[i])
     [] OTHER -> FALSE
 
 TraceInit ==
